@@ -410,6 +410,13 @@ def c09_monitor(ctx, tr, ix):
 def c10_monitor(ctx, tr, ix):
     cfgk = tr.cfg
     rp = replay_of(tr)
+    # what can be closed (T+1 counter, yesterday's part) is the same after the position's state is written and read back (a restore inside the day)
+    for kind, e in tr.events:
+        if kind == "POS_ROUNDTRIP":
+            ctx.witness("C10.2", {"kind": "closable_changes_across_state_roundtrip", "acct": e["acct"]},
+                        "%s %s %s at %s: (quantity, closable, today_closable, old_quantity) is %r on the live position and %r after get_state/set_state into a fresh object"
+                        % (e["acct"], e["book"], e["direction"], e["cal"], e["live"], e["restored"]), rp)
+            break
     t1 = cfgk["accounts_mod"].get("stock_t1", True)
     # the property is stated "with position validation on": each account type's invariants are checked when its own switch is on
     val_on = {"STOCK": cfgk["accounts_mod"].get("validate_stock_position", True), "FUTURE": cfgk["accounts_mod"].get("validate_future_position", True)}
@@ -471,6 +478,30 @@ def c10_monitor(ctx, tr, ix):
                         if any(c_["api"] == "plan_future_generic_close" and c_["args"][0] == h["id"] and c_["when"] <= when for c_ in tr.calls):
                             sig3.update(account="FUTURE", generic_close_and_close_today_resting=True)      # consequence of F12 (the leg went negative before)
                         ctx.witness("C10.3", sig3, "%s at %s: %s %s old %s qty %s" % (kind, when, h["id"], side, p["old"], p["qty"]), rp)
+    # futures: the closing orders one call gets past the validators never add up to more than the leg holds (before the call + what the call itself opened)
+    if val_on["FUTURE"]:
+        for c in tr.calls:
+            if c["exc"] is not None or not c["orders"] or not c.get("before") or "FUTURE" not in c["before"]:
+                continue
+            if not (str(c["api"]).startswith("plan_future") or c["api"] in ("buy_close", "sell_close", "combo_future_close")):
+                continue
+            held = {(h["id"], sd): h[sd]["qty"] for h in c["before"]["FUTURE"]["holdings"] for sd in ("long", "short")}
+            opened, closing = collections.Counter(), collections.Counter()
+            for o in c["orders"]:
+                if o["book"] not in ix.fut:
+                    continue
+                leg = (o["book"], o["direction"].lower())
+                if o["effect"] == "OPEN":
+                    opened[leg] += o["filled"]
+                elif o["effect"] in ("CLOSE", "CLOSE_TODAY"):
+                    closing[leg] += o["qty"]
+            for leg, q in closing.items():
+                if q > held.get(leg, 0) + opened[leg]:
+                    sigq = {"kind": "accepted_closes_exceed_leg", "account": "FUTURE"}
+                    if c["api"] == "plan_future_generic_close":
+                        sigq["generic_close_and_close_today_resting"] = True      # the scenario of finding F12
+                    ctx.witness("C10.3", sigq, "%s%r at %s: closing orders for %s lots of %s %s passed validation, the leg held %s before the call and the call opened %s"
+                                % (c["api"], c["args"], c["when"], q, leg[0], leg[1], held.get(leg, 0), opened[leg]), rp)
     # rejected closes change nothing: position-validator vetoes vs snapshots around the call
     for c in tr.calls:
         if c["exc"] is None and not c["orders"] and c["api"] in ("order_shares", "order_lots", "sell_close", "buy_close") and c["before"] and c["after"]:
